@@ -29,7 +29,9 @@ use std::time::Instant;
 use stream::{gen_stream, Prop};
 use trace::{StreamTrace, Violation};
 
-const VERIF_DIR: &str = "/verif";
+fn verif_dir() -> String {
+    std::env::var("RTCM_VERIF_DIR").unwrap_or_else(|_| "/verif".to_string())
+}
 
 fn repo_dir() -> String {
     std::env::var("RTCM_REPO").unwrap_or_else(|_| "/repo".to_string())
@@ -66,7 +68,7 @@ struct Known {
 }
 
 fn load_known() -> Vec<Known> {
-    let path = format!("{}/KNOWN_FINDINGS.txt", VERIF_DIR);
+    let path = format!("{}/KNOWN_FINDINGS.txt", verif_dir());
     let mut out = Vec::new();
     let Ok(s) = std::fs::read_to_string(&path) else { return out };
     for line in s.lines() {
@@ -762,7 +764,7 @@ fn main() {
     let mut hi: u64 = 100;
     let mut profile_tag = "release".to_string();
     let mut secondary = false;
-    let mut out_dir = VERIF_DIR.to_string();
+    let mut out_dir = verif_dir();
     let mut file: Option<String> = None;
     let mut i = 3;
     while i < args.len() {
